@@ -6,6 +6,7 @@
 //     writers can be interleaved at file-system-call granularity, and
 //   - is a numbered fault point: a plan maps call indices to an errno; the
 //     call then fails WITHOUT touching the file system.
+//
 // Without scheduler and plan it is package os.  The import line `"os"` of
 // those packages is rewritten to this package in the scratch copy only.
 package vosy
@@ -103,4 +104,217 @@ func (f *File) WriteAt(b []byte, off int64) (int, error) {
 		return 0, err
 	}
 	return f.File.WriteAt(b, off)
+}
+
+// ---- the rest of the os surface a refactoring of the code under test may
+// reach for: same semantics as package os, every call a yield + fault point.
+
+type (
+	FileInfo  = os.FileInfo
+	FileMode  = os.FileMode
+	DirEntry  = os.DirEntry
+	PathError = os.PathError
+	LinkError = os.LinkError
+)
+
+const (
+	O_WRONLY      = os.O_WRONLY
+	O_APPEND      = os.O_APPEND
+	O_EXCL        = os.O_EXCL
+	O_SYNC        = os.O_SYNC
+	O_TRUNC       = os.O_TRUNC
+	ModePerm      = os.ModePerm
+	ModeDir       = os.ModeDir
+	DevNull       = os.DevNull
+	PathSeparator = os.PathSeparator
+)
+
+var (
+	ErrNotExist   = os.ErrNotExist
+	ErrExist      = os.ErrExist
+	ErrPermission = os.ErrPermission
+	ErrClosed     = os.ErrClosed
+	ErrInvalid    = os.ErrInvalid
+	Stdout        = os.Stdout
+	Stdin         = os.Stdin
+	Args          = os.Args
+)
+
+func IsNotExist(err error) bool             { return os.IsNotExist(err) }
+func IsExist(err error) bool                { return os.IsExist(err) }
+func IsPermission(err error) bool           { return os.IsPermission(err) }
+func Getpid() int                           { return os.Getpid() }
+func Getuid() int                           { return os.Getuid() }
+func Hostname() (string, error)             { return os.Hostname() }
+func TempDir() string                       { return os.TempDir() }
+func Getwd() (string, error)                { return os.Getwd() }
+func Environ() []string                     { return os.Environ() }
+func LookupEnv(k string) (string, bool)     { return os.LookupEnv(k) }
+func Setenv(k, v string) error              { return os.Setenv(k, v) }
+func UserHomeDir() (string, error)          { return os.UserHomeDir() }
+func UserConfigDir() (string, error)        { return os.UserConfigDir() }
+func UserCacheDir() (string, error)         { return os.UserCacheDir() }
+func Executable() (string, error)           { return os.Executable() }
+func SameFile(a, b os.FileInfo) bool        { return os.SameFile(a, b) }
+func NewFile(fd uintptr, name string) *File { return &File{os.NewFile(fd, name)} }
+
+func wrap(f *os.File, err error) (*File, error) {
+	if err != nil {
+		return nil, err
+	}
+	return &File{f}, nil
+}
+
+func Open(name string) (*File, error) {
+	if err := point("open", name); err != nil {
+		return nil, err
+	}
+	return wrap(os.Open(name))
+}
+
+func Create(name string) (*File, error) {
+	if err := point("create", name); err != nil {
+		return nil, err
+	}
+	return wrap(os.Create(name))
+}
+
+func CreateTemp(dir, pattern string) (*File, error) {
+	if err := point("createtemp", dir); err != nil {
+		return nil, err
+	}
+	return wrap(os.CreateTemp(dir, pattern))
+}
+
+func MkdirTemp(dir, pattern string) (string, error) {
+	if err := point("mkdirtemp", dir); err != nil {
+		return "", err
+	}
+	return os.MkdirTemp(dir, pattern)
+}
+
+func Mkdir(name string, perm os.FileMode) error {
+	if err := point("mkdir", name); err != nil {
+		return err
+	}
+	return os.Mkdir(name, perm)
+}
+
+func Stat(name string) (os.FileInfo, error) {
+	if err := point("stat", name); err != nil {
+		return nil, err
+	}
+	return os.Stat(name)
+}
+
+func Lstat(name string) (os.FileInfo, error) {
+	if err := point("lstat", name); err != nil {
+		return nil, err
+	}
+	return os.Lstat(name)
+}
+
+func ReadDir(name string) ([]os.DirEntry, error) {
+	if err := point("readdir", name); err != nil {
+		return nil, err
+	}
+	return os.ReadDir(name)
+}
+
+func Rename(oldpath, newpath string) error {
+	if err := point("rename", oldpath); err != nil {
+		return err
+	}
+	return os.Rename(oldpath, newpath)
+}
+
+func Link(oldname, newname string) error {
+	if err := point("link", oldname); err != nil {
+		return err
+	}
+	return os.Link(oldname, newname)
+}
+
+func Symlink(oldname, newname string) error {
+	if err := point("symlink", oldname); err != nil {
+		return err
+	}
+	return os.Symlink(oldname, newname)
+}
+
+func Remove(name string) error {
+	if err := point("remove", name); err != nil {
+		return err
+	}
+	return os.Remove(name)
+}
+
+func RemoveAll(name string) error {
+	if err := point("removeall", name); err != nil {
+		return err
+	}
+	return os.RemoveAll(name)
+}
+
+func Truncate(name string, size int64) error {
+	if err := point("truncate", name); err != nil {
+		return err
+	}
+	return os.Truncate(name, size)
+}
+
+func Chmod(name string, mode os.FileMode) error {
+	if err := point("chmod", name); err != nil {
+		return err
+	}
+	return os.Chmod(name, mode)
+}
+
+func (f *File) Truncate(size int64) error {
+	if err := point("ftruncate", f.Name()); err != nil {
+		return err
+	}
+	return f.File.Truncate(size)
+}
+
+func (f *File) Write(b []byte) (int, error) {
+	if err := point("write", f.Name()); err != nil {
+		return 0, err
+	}
+	return f.File.Write(b)
+}
+
+func (f *File) WriteString(s string) (int, error) {
+	if err := point("write", f.Name()); err != nil {
+		return 0, err
+	}
+	return f.File.WriteString(s)
+}
+
+func (f *File) ReadAt(b []byte, off int64) (int, error) {
+	if err := point("readat", f.Name()); err != nil {
+		return 0, err
+	}
+	return f.File.ReadAt(b, off)
+}
+
+func (f *File) Read(b []byte) (int, error) {
+	if err := point("read", f.Name()); err != nil {
+		return 0, err
+	}
+	return f.File.Read(b)
+}
+
+func (f *File) Sync() error {
+	if err := point("sync", f.Name()); err != nil {
+		return err
+	}
+	return f.File.Sync()
+}
+
+func (f *File) Chmod(mode os.FileMode) error {
+	if err := point("fchmod", f.Name()); err != nil {
+		return err
+	}
+	return f.File.Chmod(mode)
 }
